@@ -16,6 +16,7 @@ import (
 	"bytes"
 	"crypto/md5"
 	"fmt"
+	"io"
 	"os"
 	"path/filepath"
 	"sort"
@@ -535,6 +536,105 @@ func verifRaceHold(w *bufio.Writer, tmp string, id string, days int) {
 		e.st.GetFileStatus("ds/a2", time.Now().Add(-time.Hour)))
 }
 
+// vrTwoStage delivers the first n bytes, signals, waits for the gate, then delivers the rest
+type vrTwoStage struct {
+	data    []byte
+	pos, n  int
+	reached chan bool
+	gate    chan bool
+	waited  bool
+}
+
+func (g *vrTwoStage) Read(p []byte) (int, error) {
+	if g.pos >= len(g.data) {
+		return 0, io.EOF
+	}
+	lim := len(g.data)
+	if !g.waited {
+		if g.pos >= g.n {
+			g.reached <- true
+			<-g.gate
+			g.waited = true
+		} else {
+			lim = g.n
+		}
+	}
+	k := copy(p, g.data[g.pos:lim])
+	g.pos += k
+	return k, nil
+}
+
+// vrCut delivers its bytes and then fails (connection reset)
+type vrCut struct{ r *bytes.Reader }
+
+func (c *vrCut) Read(p []byte) (int, error) {
+	if n, _ := c.r.Read(p); n > 0 {
+		return n, nil
+	}
+	return 0, fmt.Errorf("connection reset by peer")
+}
+
+// kind over: a file that fits in ONE part is in flight on two connections at once (a retransmission after
+// a stall): the good request has streamed most of its bytes when the other copy - damaged, and cut after
+// p2 bytes - writes over the beginning of the staged file and fails; then the good request completes.
+// What is staged is damaged: it must fail validation, never be delivered.
+func verifRaceOver(w *bufio.Writer, tmp string, id string, size, dmg int) {
+	e := vrNew(tmp, id)
+	defer os.RemoveAll(e.root)
+	defer e.st.Stop(true)
+	name := "d/over.bin"
+	data := make([]byte, size)
+	for i := range data {
+		data[i] = byte(i*13 + 5)
+	}
+	hash := vrMD5(data)
+	mk := func() *sts.Partial {
+		return &sts.Partial{Name: name, Size: int64(size), Time: marshal.NanoTime{Time: time.Now().Add(-100 * time.Second)}, Hash: hash, Source: "src",
+			Parts: []*sts.ByteRange{{Beg: 0, End: int64(size)}}}
+	}
+	p := &vsPart{name: name, hash: hash, size: int64(size), beg: 0, end: int64(size)}
+	e.st.Prepare([]sts.Binned{p})
+	good := &vrTwoStage{data: data, n: size * 3 / 4, reached: make(chan bool, 1), gate: make(chan bool)}
+	doneA := make(chan error, 1)
+	go func() { doneA <- e.st.Receive(mk(), good) }()
+	select {
+	case <-good.reached:
+	case <-time.After(3 * time.Second):
+	}
+	bad := make([]byte, dmg)
+	for i := range bad {
+		bad[i] = data[i] ^ 0x5a
+	}
+	e.st.Prepare([]sts.Binned{p})
+	errB := e.st.Receive(mk(), &vrCut{r: bytes.NewReader(bad)})
+	close(good.gate)
+	var errA error
+	select {
+	case errA = <-doneA:
+	case <-time.After(5 * time.Second):
+		errA = fmt.Errorf("timeout")
+	}
+	e.quiet()
+	badContent := 0
+	where := "-"
+	for _, pth := range []string{filepath.Join(e.finalDir, name), filepath.Join(e.stageDir, name+waitExt)} {
+		if b, err := os.ReadFile(pth); err == nil {
+			where = filepath.Base(pth)
+			if vrMD5(b) != hash {
+				badContent = 1
+			}
+		}
+	}
+	b2i := func(x bool) int {
+		if x {
+			return 1
+		}
+		return 0
+	}
+	fmt.Fprintf(w, "SR over %d %d 0 = good_ok=%d cut_refused=%d where=%s bad_content=%d status=%d\n", size, dmg, b2i(errA == nil), b2i(errB != nil), where, badContent,
+		e.st.GetFileStatus(name, time.Now().Add(-time.Hour)))
+}
+
 func TestVerifStageRace(t *testing.T) {
 	wr, done, ok := gen.Out()
 	if !ok {
@@ -556,6 +656,9 @@ func TestVerifStageRace(t *testing.T) {
 	}
 	for i := 0; i < gen.EnvInt("VERIF_RACE_LATE", 6); i++ {
 		verifRaceLate(wr, tmp, fmt.Sprintf("l%d", i), 2000+i*4096, i%3 != 2, i%2 == 1)
+	}
+	for i := 0; i < gen.EnvInt("VERIF_RACE_OVER", 3); i++ {
+		verifRaceOver(wr, tmp, fmt.Sprintf("o%d", i), []int{65536, 4000, 200000}[i%3], []int{100, 1, 3000}[i%3])
 	}
 	for i := 0; i < gen.EnvInt("VERIF_RACE_HOLD", 3); i++ {
 		verifRaceHold(wr, tmp, fmt.Sprintf("h%d", i), []int{6, 3, 9}[i%3])
